@@ -152,21 +152,30 @@ mut("c14-id-uuid1-no-monotonic-guard", "C14", NODE,
 mut("c14-delete-one-level", "C14", NODE,
     """                Node.store.pop(descendant.id, None)
                 descendants.extend(descendant.children)
+        del Node.store[id]
 """, """                Node.store.pop(descendant.id, None)
-""", "delete unregisters children but not deeper descendants")
+        del Node.store[id]
+""", "delete by id unregisters children but not deeper descendants")
+mut("c14-discard-one-level", "C14", NODE,
+    """                Node.store.pop(descendant.id, None)
+                descendants.extend(descendant.children)
+        Node.store.pop(node.id, None)
+""", """                Node.store.pop(descendant.id, None)
+        Node.store.pop(node.id, None)
+""", "discarding operations unregister children but not deeper descendants")
 mut("c14-replace-deletes-old-node-only", "C14", NODE,
-    "            Node.delete_node_instance(id=old_child.id)\n",
-    "            Node.delete_node_instance(id=old_child.id, children=False)\n",
+    "            Node.delete_node(old_child)\n",
+    "            Node.delete_node(old_child, children=False)\n",
     "replace with deletion leaves the old child's descendants registered")
 mut("c14-prune-skips-registry", "C14", VAL,
     """                pruned.append((child, msg))
                 n.remove_child(child)
-                Node.delete_node_instance(child.id)
+                Node.delete_node(child)
 """, """                pruned.append((child, msg))
                 n.remove_child(child)
 """, "prune does not unregister disallowed children it removes")
 mut("c14-expand-skips-registry", "C14", REF,
-    "        destination_node.remove_child(reference)\n        Node.delete_node_instance(reference.id)\n",
+    "        destination_node.remove_child(reference)\n        Node.delete_node(reference)\n",
     "        destination_node.remove_child(reference)\n",
     "expand leaves the removed references nodes registered")
 mut("c14-remove-child-unregisters", "C14", NODE,
@@ -307,10 +316,10 @@ mut("c15-removes-empty-leaves-too", "C15", VAL,
 mut("c15-registry-skip-nested", "C15", VAL,
     """            if n.parent is not None:
                 n.parent.remove_child(n)
-            Node.delete_node_instance(n.id)
+            Node.delete_node(n)
             return pruned""", """            if n.parent is not None:
                 n.parent.remove_child(n)
-            Node.delete_node_instance(n.id, children=False)
+            Node.delete_node(n, children=False)
             return pruned""", "an unknown node is unregistered without its descendants")
 mut("c15-strict-validates-before-descending", "C15", VAL,
     "            pruned += prune(child, strict)\n            if strict and child in n.children:",
